@@ -13,9 +13,10 @@ header words inside linear memory; the model keeps the same information as
 * `rover`   — `$__heap_l128_freep` (address of a ring node; the head is `heapBase+32`)
 * `live`    — blocks handed out and not yet freed (the real code has no such table: it is the
               caller's knowledge; `req` is the size the caller asked for)
-* `dead`    — 0, or the reason why the real heap is corrupted from here on (1: the l128 list head
-              itself was handed out; 2: the bump pointer wrapped past 2^31).  No operation is
-              modelled after that point.
+* `dead`    — 0, or the reason why the real heap would be corrupted from here on (1: the l128 list head
+              itself was handed out; 2: the bump pointer is at or beyond 2^31, where the signed address
+              comparisons stop being order comparisons).  Both are unreachable under `CfgWF`/`OpOK` since the
+              repairs 785884e / 786cf0e (proved: `Inv.alive`); no operation is modelled after that point.
 
 Every operation also returns its *write log*: the addresses of the 32-bit words the WAT code
 stores to, in program order.
@@ -85,7 +86,7 @@ def align8 (n : Nat) : Nat := (n + 7) / 8 * 8
 
 /-- `$heap_free_list.ptr_and_fixed_size`: (list index 0..3 fixed / 4 = l128, block size) -/
 def ptrAndFixedSize (c : Config) (size : Nat) : Nat × Nat :=
-  if c.cap = 0 then (4, align8 size)
+  if c.cap = 0 then (4, if align8 size = 0 then 8 else align8 size)   -- at least 8: the size-0 ring head must never match
   else if size > 80 then (4, if size ≤ 128 then 128 else align8 size)
   else if size > 48 then (3, 80)
   else if size > 32 then (2, 48)
@@ -183,8 +184,8 @@ def newAllocation (s : State) (n : Nat) : State × Option FBlk × List Nat :=
   let ptr := s.heapPtr
   let bs := 8 + n
   let sum := (s.heapPtr + bs) % 4294967296
-  -- `i32.ge_s` against `$__heap_top` (signed-positive): a wrapped (negative) sum compares below
-  let needGrow := decide (sum < 2147483648 ∧ sum ≥ s.heapTop)
+  -- `i32.ge_u` against `$__heap_top`: unsigned, so a sum at or beyond 2^31 still asks for growth
+  let needGrow := decide (sum ≥ s.heapTop)
   let pg := (bs + 65535) / 65536
   if needGrow && decide (s.pages + pg > s.cfg.maxPages) then (s, none, [])
   else
